@@ -115,6 +115,27 @@ def generate(L):
         and all(x in prep for x in ["vec![(1, total_lines)]", "if end == LINE_RANGE_END_OF_FILE {", "(start, total_lines)",
                                     "*start == 0 || *end == 0 || start > end || *end > total_lines"])
 
+    # order in prepare_blame_request: the effective options (--json pins HEAD) are computed BEFORE the content is
+    # read, the content is read WITH them, and total_lines is the line count of that content
+    i_eff = prep.find("let options = Self::effective_blame_options(options);")
+    i_read = prep.find("let file_content = self.read_blame_file_content(&relative_file_path, &options)?;")
+    i_tot = prep.find("let total_lines = file_content.lines().count() as u32;")
+    if i_read < 0 and "self.read_blame_file_content(&relative_file_path, options)?" in prep:
+        sized_by_effective = False      # content read with the caller's options: sized from another revision than git blames
+    elif min(i_eff, i_read, i_tot) < 0:
+        raise L.GenError("prepare_blame_request: effective options / content read / total_lines statements not found")
+    else:
+        sized_by_effective = i_eff < i_read < i_tot
+    eff = L.find_fn(src, "effective_blame_options", rel)
+    m_head = re.search(r"if options\.json \{.*?if opts\.newest_commit\.is_none\(\) \{\s*opts\.newest_commit = Some\(" + L.STR_LIT
+                       + r"\.to_string\(\)\);", eff, re.S)
+    if not m_head or eff.count("newest_commit") != 2:
+        raise L.GenError("effective_blame_options: `--json` default revision shape changed")
+    json_rev = L.unescape(m_head.group(1))
+    rbc = L.find_fn(src, "read_blame_file_content", rel)
+    if not ("options.contents_data" in rbc and "if let Some(ref commit) = options.newest_commit" in rbc):
+        raise L.GenError("read_blame_file_content: contents / newest_commit / working directory cascade changed")
+
     return "\n".join([
         "Definition content_prefix : N := " + str(content_prefix[0]) + ".",
         "Definition author_prefix : list N := " + L.coq_str(prefixes[0][1]) + ".",
@@ -130,4 +151,6 @@ def generate(L):
         "Definition attribution_own_prompts_first : bool := " + L.coq_bool(own_first) + ".",
         "Definition json_grouping_shape : bool := " + L.coq_bool(json_shape) + ".",
         "Definition line_range_open_end : bool := " + L.coq_bool(open_end) + ".",
+        "Definition json_default_revision : list N := " + L.coq_str(json_rev) + ".",
+        "Definition content_read_after_effective_options : bool := " + L.coq_bool(sized_by_effective) + ".",
     ])
